@@ -37,14 +37,15 @@ static bool m_less_rec(std::vector<idx> const& ea, int const* pa, std::vector<id
 static bool m_less(Val const& a, Val const& b) { if(D == 0) { return a.v[0] < b.v[0]; } return m_less_rec(a.ext, a.v.data(), b.ext, b.v.data(), 0); }
 
 // ---- all logical values
-static std::vector<Val> values(bool thorough) {
+static std::vector<Val> values(bool thorough, bool wide) {
 	std::vector<std::vector<idx>> shapes; int alpha = 2;
 	switch(D) {
 		case 0: shapes = {{}}; alpha = 3; break;
 		case 1: shapes = {{0}, {1}, {2}, {3}}; alpha = 3; break;
 		case 2: shapes = {{0, 0}, {0, 2}, {1, 1}, {1, 2}, {2, 1}, {2, 2}}; if(thorough) { shapes.push_back({1, 3}); shapes.push_back({3, 1}); shapes.push_back({2, 3}); } break;
 		case 3: shapes = {{1, 1, 2}, {1, 2, 1}, {2, 1, 1}, {1, 2, 2}, {2, 1, 2}, {2, 2, 1}}; if(thorough) { shapes.push_back({2, 2, 2}); shapes.push_back({0, 2, 2}); } break;
-		default: shapes = {{1, 1, 1, 2}, {2, 1, 1, 1}, {1, 2, 1, 1}}; if(thorough) { shapes.push_back({1, 1, 2, 2}); shapes.push_back({2, 2, 1, 1}); } break;
+		default: shapes = {{1, 1, 1, 2}, {2, 1, 1, 1}, {1, 2, 1, 1}}; if(wide) { for(auto const& w : std::vector<std::vector<idx>>{{1, 1, 2, 2}, {1, 2, 1, 2}, {1, 2, 2, 1}, {2, 1, 1, 2}, {2, 1, 2, 1}, {2, 2, 1, 1}}) { shapes.push_back(w); } }   // every position of two non-trivial axes (C07 runs; --wide)
+			else if(thorough) { shapes.push_back({1, 1, 2, 2}); shapes.push_back({2, 2, 1, 1}); } break;
 	}
 	std::vector<Val> out;
 	for(auto const& sh : shapes) {
@@ -57,6 +58,22 @@ static std::vector<Val> values(bool thorough) {
 // ---- representations
 enum Rep { R_ARRAY, R_REF, R_TRANSPOSED_STORAGE, R_SUBBLOCK, R_SHORT_ARRAY, R_SHORT_VIEW, R_STATIC, R_INNER_PADDED, R_OUTER_PADDED, NREP };
 static char const* const rep_name[] = {"array", "array_ref", "view-of-rotated-storage", "padded-sub-block", "array<short>", "view-of-array<short>", "static_array", "block-padded-in-last-dimension", "block-padded-in-leading-dimension"};
+
+// representations >= R_PERM0: the value stored with its axes permuted (every non-identity permutation of the D axes) and viewed back in logical order through
+// rotated/transposed/unrotated — compact, gap-free layouts whose memory order is not the logical order in ways a single rotation does not produce
+constexpr int R_PERM0 = 100;
+static std::vector<std::vector<int>> const& perms() {
+	static std::vector<std::vector<int>> const v = [] { std::vector<std::vector<int>> r; std::vector<int> p(static_cast<std::size_t>(D)); for(int i = 0; i < D; ++i) { p[static_cast<std::size_t>(i)] = i; } while(std::next_permutation(p.begin(), p.end())) { r.push_back(p); } return r; }();
+	return v;
+}
+static std::string rep_nm(int r) { if(r < R_PERM0) { return rep_name[r]; } return "view-of-axis-permuted-storage"; }
+static std::string perm_str(int r) { std::string s; for(int x : perms()[static_cast<std::size_t>(r - R_PERM0)]) { s += std::to_string(x); } return s; }
+template<class V, class F> void apply_ops(V&& v, std::string const& ops, std::size_t k, F&& f) {
+	if constexpr(vm::rank_of<V> >= 2) {
+		if(k == ops.size()) { f(v); return; }
+		switch(ops[k]) { case 'r': apply_ops(v.rotated(), ops, k + 1, f); return; case 'u': apply_ops(v.unrotated(), ops, k + 1, f); return; default: apply_ops(v.transposed(), ops, k + 1, f); return; }
+	} else { (void)ops; (void)k; f(v); }
+}
 
 template<class A> void put(A&& a, Val const& x) {  // write the logical value through plain indexing (C01's business)
 	idx k = 0;
@@ -91,6 +108,16 @@ bool with_rep(Val const& x, int r, F&& f) {
 	} else {
 		auto exts = vo::make_extensions<D>(x.ext);
 		idx n = prod(x.ext);
+		if(r >= R_PERM0) {
+			if(n == 0) { return false; }
+			auto const& sg = perms()[static_cast<std::size_t>(r - R_PERM0)];   // storage axis j holds logical axis sg[j]
+			std::vector<idx> se(x.ext); for(std::size_t j = 0; j < sg.size(); ++j) { se[j] = x.ext[static_cast<std::size_t>(sg[j])]; }
+			multi::array<int, D> st(vo::make_extensions<D>(se));
+			std::vector<int> cur(sg); std::string ops;   // bubble sort of the view's axes, each adjacent swap (i,i+1) = rotated^i transposed unrotated^i
+			for(bool sw = true; sw;) { sw = false; for(std::size_t i = 0; i + 1 < cur.size(); ++i) { if(cur[i] > cur[i + 1]) { std::swap(cur[i], cur[i + 1]); ops += std::string(i, 'r') + "t" + std::string(i, 'u'); sw = true; } } }
+			apply_ops(st(), ops, 0, [&](auto&& v) { fill(v, x); f(v); });
+			return true;
+		}
 		switch(r) {
 			case R_ARRAY: { multi::array<int, D> a(exts); fill(a, x); f(a); return true; }
 			case R_STATIC: { multi::static_array<int, D> a(exts); fill(a, x); f(a); return true; }
@@ -145,8 +172,8 @@ struct Ctx { Val const* a; Val const* b; int ra, rb; bool ca, cb; bool same_obje
 static void report(Ctx const& c, char const* op, bool got, bool expect) {
 	std::string rp = std::to_string(D) + "/" + vstr(*c.a) + "/" + std::to_string(c.ra) + (c.ca ? "c" : "m") + "/" + vstr(*c.b) + "/" + std::to_string(c.rb) + (c.cb ? "c" : "m");
 	std::string cls = std::string(prod(c.a->ext) == 0 || prod(c.b->ext) == 0 ? "empty-operand" : (c.a->ext == c.b->ext ? "same-extents" : "different-extents"));
-	mc::R.violation("D" + std::to_string(D) + "|" + rep_name[c.ra] + (c.ca ? " const" : "") + " " + op + " " + rep_name[c.rb] + (c.cb ? " const" : "") + "|" + cls + "|wrong-result",
-		mc::J().s("harness", "cmpmc").s("replay", rp).s("lhs", vstr(*c.a)).s("rhs", vstr(*c.b)).s("lhs_rep", rep_name[c.ra]).s("rhs_rep", rep_name[c.rb]).s("op", op).s("detail", std::string("library says ") + (got ? "true" : "false") + ", nested-sequence semantics say " + (expect ? "true" : "false")).str());
+	mc::R.violation("D" + std::to_string(D) + "|" + rep_nm(c.ra) + (c.ca ? " const" : "") + " " + op + " " + rep_nm(c.rb) + (c.cb ? " const" : "") + "|" + cls + "|wrong-result",
+		mc::J().s("harness", "cmpmc").s("replay", rp).s("lhs", vstr(*c.a)).s("rhs", vstr(*c.b)).s("lhs_rep", rep_nm(c.ra) + (c.ra >= R_PERM0 ? " storage axes " + perm_str(c.ra) : "")).s("rhs_rep", rep_nm(c.rb) + (c.rb >= R_PERM0 ? " storage axes " + perm_str(c.rb) : "")).s("op", op).s("detail", std::string("library says ") + (got ? "true" : "false") + ", nested-sequence semantics say " + (expect ? "true" : "false")).str());
 }
 static void nocompile(Ctx const& c, char const* op) {
 	auto is_short = [](int r) { return r == R_SHORT_ARRAY || r == R_SHORT_VIEW; };  // (padding variants are int)
@@ -157,9 +184,9 @@ static void nocompile(Ctx const& c, char const* op) {
 	else if((c.ra == R_REF) != (c.rb == R_REF) && std::string(op) != "==" && std::string(op) != "!=") { cls = "ordering-between-different-pointer-types"; }   // the property promises ==/!= across pointer types, ordering only within one
 #endif
 	else if(D == 0 && (owning(c.ra) || owning(c.rb))) { cls = "owning-0D-array-operand"; }
-	else { cls = std::string(rep_name[c.ra]) + (c.ca ? " const" : "") + " vs " + rep_name[c.rb] + (c.cb ? " const" : ""); }
+	else { cls = std::string(rep_nm(c.ra)) + (c.ca ? " const" : "") + " vs " + rep_nm(c.rb) + (c.cb ? " const" : ""); }
 	std::string k = "D" + std::to_string(D) + "|" + op + "|" + cls + "|does-not-compile";
-	if(g_notcompile.insert(k).second) { mc::R.violation(k, mc::J().s("harness", "cmpmc").s("replay", "compile").s("op", op).s("lhs_rep", rep_name[c.ra]).s("rhs_rep", rep_name[c.rb]).s("detail", std::string("the expression `") + rep_name[c.ra] + " " + op + " " + rep_name[c.rb] + "` is ill-formed (missing or ambiguous operator)").str()); }
+	if(g_notcompile.insert(k).second) { mc::R.violation(k, mc::J().s("harness", "cmpmc").s("replay", "compile").s("op", op).s("lhs_rep", rep_nm(c.ra)).s("rhs_rep", rep_nm(c.rb)).s("detail", std::string("the expression `") + rep_nm(c.ra) + " " + op + " " + rep_nm(c.rb) + "` is ill-formed (missing or ambiguous operator)").str()); }
 }
 
 template<class X, class Y>
@@ -188,18 +215,21 @@ int main(int argc, char** argv) {
 	mc::set_deadline(static_cast<double>(args.geti("deadline", 3000)));
 	std::string only = args.get("replay", "");
 	auto body = [&](std::set<std::string> const&) {
-		auto vals = values(thorough);
+		bool const wide = args.geti("wide", 0) != 0; long const shard = args.geti("shard", 0), nshards = std::max(1L, args.geti("nshards", 1));
+		auto vals = values(thorough, wide);
 		std::vector<RP> rps = {{R_ARRAY, R_ARRAY}, {R_ARRAY, R_REF}, {R_REF, R_ARRAY}, {R_REF, R_TRANSPOSED_STORAGE}, {R_TRANSPOSED_STORAGE, R_SUBBLOCK}, {R_SUBBLOCK, R_ARRAY}, {R_ARRAY, R_SUBBLOCK}, {R_SUBBLOCK, R_SUBBLOCK},
 			{R_ARRAY, R_SHORT_ARRAY}, {R_SHORT_ARRAY, R_ARRAY}, {R_SHORT_VIEW, R_SUBBLOCK}, {R_SUBBLOCK, R_SHORT_VIEW}, {R_STATIC, R_ARRAY}, {R_STATIC, R_STATIC}, {R_REF, R_REF}, {R_TRANSPOSED_STORAGE, R_TRANSPOSED_STORAGE},
 			{R_INNER_PADDED, R_INNER_PADDED}, {R_OUTER_PADDED, R_OUTER_PADDED}, {R_INNER_PADDED, R_ARRAY}, {R_OUTER_PADDED, R_SUBBLOCK}};
-		for(auto const& a : vals) { for(auto const& b : vals) {
+		if(D >= 3 && wide) { for(int k = 0; k < static_cast<int>(perms().size()); ++k) { int P = R_PERM0 + k; rps.push_back({P, R_ARRAY}); rps.push_back({R_REF, P}); rps.push_back({P, P}); rps.push_back({P, R_SUBBLOCK}); if(k + 1 < static_cast<int>(perms().size())) { rps.push_back({P, P + 1}); } } }
+		long ai = -1;
+		for(auto const& a : vals) { ++ai; if(ai % nshards != shard) { continue; } for(auto const& b : vals) {
 			if(mc::past_deadline()) { mc::R.exhaustive = false; break; }
 			++g_pairs; if(prod(a.ext) >= 1 && prod(b.ext) >= 1 && !(a.ext == b.ext && a.v == b.v)) { ++g_nontrivial; }
 			for(auto const& rp : rps) {
 				for(int cc = 0; cc < 4; ++cc) {
 					Ctx c{&a, &b, rp.a, rp.b, (cc & 1) != 0, (cc & 2) != 0, false};
 					if(!only.empty()) { std::string r = std::to_string(D) + "/" + vstr(a) + "/" + std::to_string(c.ra) + (c.ca ? "c" : "m") + "/" + vstr(b) + "/" + std::to_string(c.rb) + (c.cb ? "c" : "m"); if(r != only) { continue; } }
-					mc::cur_set(std::string(rep_name[rp.a]) + " vs " + rep_name[rp.b], std::to_string(D) + "/" + vstr(a) + "/" + std::to_string(c.ra) + (c.ca ? "c" : "m") + "/" + vstr(b) + "/" + std::to_string(c.rb) + (c.cb ? "c" : "m"));
+					mc::cur_set(std::string(rep_nm(rp.a)) + " vs " + rep_nm(rp.b), std::to_string(D) + "/" + vstr(a) + "/" + std::to_string(c.ra) + (c.ca ? "c" : "m") + "/" + vstr(b) + "/" + std::to_string(c.rb) + (c.cb ? "c" : "m"));
 					g_pad = -9;
 					with_rep(a, rp.a, [&](auto&& x) { g_pad = -8; with_rep(b, rp.b, [&](auto&& y) {
 						if(c.ca && c.cb) { check_ops(std::as_const(x), std::as_const(y), c); }
@@ -216,7 +246,7 @@ int main(int argc, char** argv) {
 		if(fancy::g.oob_deref || fancy::g.null_deref || fancy::g.null_arith) { mc::R.violation("D" + std::to_string(D) + "|fancy-pointer|provenance", mc::J().s("harness", "cmpmc").s("replay", "fancy").s("detail", fancy::g.first).str()); }
 #endif
 		mc::R.add("evaluations", g_evals); mc::R.add("pairs", g_pairs); mc::R.add("distinct_nontrivial", g_nontrivial);
-		mc::R.note("D=" + std::to_string(D) + ": logical values=" + std::to_string(vals.size()) + " ordered pairs=" + std::to_string(g_pairs) + " representation pairs=" + std::to_string(rps.size()) + " x4 constness");
+		mc::R.note("D=" + std::to_string(D) + ": logical values=" + std::to_string(vals.size()) + " ordered pairs=" + std::to_string(g_pairs) + " representation pairs=" + std::to_string(rps.size()) + " x4 constness" + (wide ? " (incl. every axis permutation of the storage)" : "") + (nshards > 1 ? " shard " + std::to_string(shard) + "/" + std::to_string(nshards) + " of the left operands" : ""));
 		mc::R.emit(stdout);
 	};
 	if(!only.empty()) { std::set<std::string> none; body(none); std::printf("REPLAY %s (%ld operator evaluations)\n", mc::R.viol.empty() ? "OK" : "VIOLATION", g_evals); for(auto const& [k, v] : mc::R.viol) { std::printf("  %s %s\n", k.c_str(), v.second.substr(0, 300).c_str()); } return mc::R.viol.empty() ? 0 : 1; }
